@@ -128,4 +128,12 @@ CLAIMED.update({
   "note": "The handler programs are hand-transcribed (order of guards, conversions, dependency calls); the exhaustive differential run is what ties them to the code. Dependencies are stubs: crashes inside the real ledger / verifier are covered by C09 / C04 / the createleaf-panic finding.", "design_ref": "6 C15",
  },
 })
+CLAIMED.update({
+ "C16": {
+  "engine": "notaryh+CheckNotary",
+  "technique": "Coq: notary state machine, invariant over all call sequences + single-step characterisation of what seals a contract, signature/challenge theorems; trace-acceptor correspondence on the real server object with real cache/challenge store/ledger; monitors",
+  "text": "C16_invariant_all_sequences (contracts sealed only by Confirm/Reject, Propose seals only data-free transactions, nothing sealed twice), C16_contract_needs_receiver (the sealing call carries valid issuer+receiver signatures for a transaction awaiting here, or is a Reject verified under the receiver's address), C16_bad_signature_changes_nothing, C16_pure_transfer_on_issuer_signature, C16_waiting/history_needs_challenge, C16_balance_needs_own_signature, C16_expired_challenge_refused. The harness runs honest and dishonest clients against the real server and compares every response and the awaiting/sealed state after every call.",
+  "note": "Confirm seals the CALLER's copy of the transaction (same hash and signatures as the cached one; C04's boundary ambiguity lets subject/data differ) and Confirm/Reject lose the awaiting entry when sealing fails (C15 known findings). Throttling (flash memory) is an input of the model.", "design_ref": "6 C16",
+ },
+})
 NOT_YET = {}
